@@ -52,4 +52,116 @@ func event.linkTo
   requires e != nil && unlocked(e.linkMutex)
   modifies everything
   ensures unlocked(e.linkMutex)
+
+-- ---------------------------------------------------------------------------------------------------------------
+-- Trigger: the closure that Trigger runs for every hook. It always lets the iteration go on (an exhausted hook is
+-- unhooked and skipped, it does not end the trigger for the hooks behind it), and a hook that is not exhausted is
+-- delivered exactly once - directly or through its worker pool.
+type Hook
+  callback trigger()
+  callback preTriggerFunc()
+
+global ndeliv Int        -- deliveries (hook.trigger or a worker-pool submission) made by the running closure (ghost)
+global exhausted Bool    -- what the hook's own trigger limit said (ghost)
+
+func Event.Trigger$1
+  opt assume-no-overflow
+  requires hook != nil && hook.triggerSettings != nil && hook.event != nil && hook.event.hooks != nil && e != nil && *e != nil && (*e).event != nil
+  modifies everything
+  ghost at entry: ndeliv = 0
+  ghost after call triggerSettings.currentTriggerExceedsMaxTriggerCount: exhausted = result
+  ghost before call Hook#trigger: ndeliv = ndeliv + 1
+  ghost before call WorkerPool.Submit: ndeliv = ndeliv + 1
+  ensures r0 && ndeliv == (exhausted ? 0 : 1)
+
+func Event1.Trigger$1
+  opt assume-no-overflow
+  requires hook != nil && hook.triggerSettings != nil && hook.event != nil && hook.event.hooks != nil && e != nil && *e != nil && (*e).event != nil && arg1 != nil
+  modifies everything
+  ghost at entry: ndeliv = 0
+  ghost after call triggerSettings.currentTriggerExceedsMaxTriggerCount: exhausted = result
+  ghost before call Hook#trigger: ndeliv = ndeliv + 1
+  ghost before call WorkerPool.Submit: ndeliv = ndeliv + 1
+  ensures r0 && ndeliv == (exhausted ? 0 : 1)
+
+func Event2.Trigger$1
+  opt assume-no-overflow
+  requires hook != nil && hook.triggerSettings != nil && hook.event != nil && hook.event.hooks != nil && e != nil && *e != nil && (*e).event != nil && arg1 != nil && arg2 != nil
+  modifies everything
+  ghost at entry: ndeliv = 0
+  ghost after call triggerSettings.currentTriggerExceedsMaxTriggerCount: exhausted = result
+  ghost before call Hook#trigger: ndeliv = ndeliv + 1
+  ghost before call WorkerPool.Submit: ndeliv = ndeliv + 1
+  ensures r0 && ndeliv == (exhausted ? 0 : 1)
+
+func Event3.Trigger$1
+  opt assume-no-overflow
+  requires hook != nil && hook.triggerSettings != nil && hook.event != nil && hook.event.hooks != nil && e != nil && *e != nil && (*e).event != nil && arg1 != nil && arg2 != nil && arg3 != nil
+  modifies everything
+  ghost at entry: ndeliv = 0
+  ghost after call triggerSettings.currentTriggerExceedsMaxTriggerCount: exhausted = result
+  ghost before call Hook#trigger: ndeliv = ndeliv + 1
+  ghost before call WorkerPool.Submit: ndeliv = ndeliv + 1
+  ensures r0 && ndeliv == (exhausted ? 0 : 1)
+
+func Event4.Trigger$1
+  opt assume-no-overflow
+  requires hook != nil && hook.triggerSettings != nil && hook.event != nil && hook.event.hooks != nil && e != nil && *e != nil && (*e).event != nil && arg1 != nil && arg2 != nil && arg3 != nil && arg4 != nil
+  modifies everything
+  ghost at entry: ndeliv = 0
+  ghost after call triggerSettings.currentTriggerExceedsMaxTriggerCount: exhausted = result
+  ghost before call Hook#trigger: ndeliv = ndeliv + 1
+  ghost before call WorkerPool.Submit: ndeliv = ndeliv + 1
+  ensures r0 && ndeliv == (exhausted ? 0 : 1)
+
+func Event5.Trigger$1
+  opt assume-no-overflow
+  requires hook != nil && hook.triggerSettings != nil && hook.event != nil && hook.event.hooks != nil && e != nil && *e != nil && (*e).event != nil && arg1 != nil && arg2 != nil && arg3 != nil && arg4 != nil && arg5 != nil
+  modifies everything
+  ghost at entry: ndeliv = 0
+  ghost after call triggerSettings.currentTriggerExceedsMaxTriggerCount: exhausted = result
+  ghost before call Hook#trigger: ndeliv = ndeliv + 1
+  ghost before call WorkerPool.Submit: ndeliv = ndeliv + 1
+  ensures r0 && ndeliv == (exhausted ? 0 : 1)
+
+func Event6.Trigger$1
+  opt assume-no-overflow
+  requires hook != nil && hook.triggerSettings != nil && hook.event != nil && hook.event.hooks != nil && e != nil && *e != nil && (*e).event != nil && arg1 != nil && arg2 != nil && arg3 != nil && arg4 != nil && arg5 != nil && arg6 != nil
+  modifies everything
+  ghost at entry: ndeliv = 0
+  ghost after call triggerSettings.currentTriggerExceedsMaxTriggerCount: exhausted = result
+  ghost before call Hook#trigger: ndeliv = ndeliv + 1
+  ghost before call WorkerPool.Submit: ndeliv = ndeliv + 1
+  ensures r0 && ndeliv == (exhausted ? 0 : 1)
+
+func Event7.Trigger$1
+  opt assume-no-overflow
+  requires hook != nil && hook.triggerSettings != nil && hook.event != nil && hook.event.hooks != nil && e != nil && *e != nil && (*e).event != nil && arg1 != nil && arg2 != nil && arg3 != nil && arg4 != nil && arg5 != nil && arg6 != nil && arg7 != nil
+  modifies everything
+  ghost at entry: ndeliv = 0
+  ghost after call triggerSettings.currentTriggerExceedsMaxTriggerCount: exhausted = result
+  ghost before call Hook#trigger: ndeliv = ndeliv + 1
+  ghost before call WorkerPool.Submit: ndeliv = ndeliv + 1
+  ensures r0 && ndeliv == (exhausted ? 0 : 1)
+
+func Event8.Trigger$1
+  opt assume-no-overflow
+  requires hook != nil && hook.triggerSettings != nil && hook.event != nil && hook.event.hooks != nil && e != nil && *e != nil && (*e).event != nil && arg1 != nil && arg2 != nil && arg3 != nil && arg4 != nil && arg5 != nil && arg6 != nil && arg7 != nil && arg8 != nil
+  modifies everything
+  ghost at entry: ndeliv = 0
+  ghost after call triggerSettings.currentTriggerExceedsMaxTriggerCount: exhausted = result
+  ghost before call Hook#trigger: ndeliv = ndeliv + 1
+  ghost before call WorkerPool.Submit: ndeliv = ndeliv + 1
+  ensures r0 && ndeliv == (exhausted ? 0 : 1)
+
+func Event9.Trigger$1
+  opt assume-no-overflow
+  requires hook != nil && hook.triggerSettings != nil && hook.event != nil && hook.event.hooks != nil && e != nil && *e != nil && (*e).event != nil && arg1 != nil && arg2 != nil && arg3 != nil && arg4 != nil && arg5 != nil && arg6 != nil && arg7 != nil && arg8 != nil && arg9 != nil
+  modifies everything
+  ghost at entry: ndeliv = 0
+  ghost after call triggerSettings.currentTriggerExceedsMaxTriggerCount: exhausted = result
+  ghost before call Hook#trigger: ndeliv = ndeliv + 1
+  ghost before call WorkerPool.Submit: ndeliv = ndeliv + 1
+  ensures r0 && ndeliv == (exhausted ? 0 : 1)
+
 @*/
